@@ -14,9 +14,9 @@ import (
 
 func init() {
 	engine.Register(&engine.Check{
-		ID:        "C13",
-		Title:     "3D tile keys convert to IDs that cover the tile and keep its footprint",
-		Technique: "exhaustive choice-tree enumeration (E1) of tile lists x (base exponent, base offset, output zoom) against per-tile application of the C12 conversion, the exact interval reference and the expansion reference",
+		ID:          "C13",
+		Title:       "3D tile keys convert to IDs that cover the tile and keep its footprint",
+		Technique:   "exhaustive choice-tree enumeration (E1) of tile lists x (base exponent, base offset, output zoom) against per-tile application of the C12 conversion, the exact interval reference and the expansion reference",
 		Assumptions: []string{"lists longer than 3, and parameter values outside the alphabets, are not covered; calls predicted to return more than 600 IDs are skipped and counted", "reference: ref.AltKeyToZ, ref.ChangeZoom"},
 		Phases: func(tier string) []engine.Phase {
 			zs := zooms(tier)
